@@ -92,7 +92,7 @@ func (t *T) IsUnknownType() bool {
 }
 
 func (t *T) IsClassType() bool {
-	return t.tType == CLASS
+	return t != nil && t.tType == CLASS
 }
 
 func (t *T) IsClassIdentifier() bool {
